@@ -196,3 +196,14 @@ Theorem C13_check_sound r SS now init steps :
       0 <= o_esc fin /\ (o_esc fin - o_esc init) * PR6 <= (o_dust fin - o_dust init) + parties l * PR6).
 Proof. exact (check_sound r SS now init steps). Qed.
 Print Assumptions C13_check_sound.
+
+(* ... and for every number of rounds (the repair of F12 at full strength): an AGAINST execution from an escrow that
+   holds exactly the escrowed stake plus the fees of all rounds leaves only the voters' pot (and at most the odd unit of
+   the halved burn amount) behind; with the code as found the amount sent back was slash + (slash - burn amount), which
+   from the second round on is not what the escrow holds *)
+Theorem C13_against_pays_out_everything fx s s' :
+  0 <= s_burn s -> is_invalid (s_result s) = false -> is_support (s_result s) = false ->
+  execute_vote fx s = (s', OK) -> s_esc s = s_slash s + s_feetotal s ->
+  s_reward s' <= s_esc s' <= s_reward s' + 1.
+Proof. exact (against_pays_out_everything fx s s'). Qed.
+Print Assumptions C13_against_pays_out_everything.
